@@ -25,7 +25,7 @@ type c06 struct{}
 func init() { core.Register("C06", func() core.Scenario { return c06{} }) }
 
 var c06auths = []string{"valid", "valid", "wrong-token", "unknown-user", "empty", "nonstring-user", "nonstring-token", "forged-uint", "forged-int",
-	"resplit", "resplit", "swapped", "token-prefix", "user-case", "other-users-token",
+	"resplit", "resplit", "padded", "padded", "swapped", "token-prefix", "user-case", "other-users-token",
 	"forged-string", "forged-list", "dup-valid-first", "dup-valid-last", "too-many", "truncated", "capability-message", "garbage"}
 
 func (c06) Gen(r *rand.Rand, tier string, run int) *core.Case {
@@ -238,6 +238,22 @@ func c06authPayload(variant string, user, token string, r *rand.Rand) []byte {
 			k = 0
 		}
 		return ref.EncodeCapMap(append(std, u(all[:k]), t(all[k:])))
+	case "padded":
+		// an accepted pair with white space around one of its halves: another
+		// pair, which an authenticator that compares refuses
+		pads := []string{" ", "\n", "\t", "\r\n", "\u00a0"}
+		pu, pt := user, token
+		switch r.IntN(4) {
+		case 0:
+			pt = token + pads[r.IntN(len(pads))]
+		case 1:
+			pu = user + pads[r.IntN(len(pads))]
+		case 2:
+			pu = pads[r.IntN(len(pads))] + user
+		default:
+			pt = pads[r.IntN(len(pads))] + token + pads[r.IntN(len(pads))]
+		}
+		return ref.EncodeCapMap(append(std, u(pu), t(pt)))
 	case "swapped":
 		return ref.EncodeCapMap(append(std, u(token), t(user)))
 	case "token-prefix":
